@@ -354,8 +354,8 @@ def run(ctx):
         if sum(1 for r in results if r is not None and (r.get("hang") or "crash" in r)) >= 3:
             ctx.notes.append("stopped after three hangs / crashes of the real engine")
             break
-    ctx.notes.append("redist_progress is stated, not a measure-theoretic proof (C14.redist_progress_partial); "
-                     "distributions of the primitives are trusted")
+    ctx.notes.append("termination is proved on every fair stream of uniform draws (C14.redist_terminates_on_fair_stream); that an i.i.d. "
+                     "uniform stream is fair almost surely, and the distributions of the primitives, are trusted")
 
 
 def replay(ctx, rec):
